@@ -23,13 +23,13 @@ extern "C" {
 }
 
 // Observers for the two known deviations (both need -Wl,--wrap): the dispatch tables reach the SIMD symbols through these.
-//  F22: silk_NSQ_del_dec_avx2 does not reproduce the C arithmetic once the quantiser state has run away (64-bit product in
+//  C15F2: silk_NSQ_del_dec_avx2 does not reproduce the C arithmetic once the quantiser state has run away (64-bit product in
 //       silk_sar_round_smulww, wrapping (a+8)>>4 in silk_mm_srai_round_epi32); both need the AVX2 result to hold a saturated
 //       output sample, which is the observable class.
-//  F21: celt_fir_sse4_1 saturates at -32768, celt_fir_c at -32767.
+//  C15F1: celt_fir_sse4_1 saturates at -32768, celt_fir_c at -32767.
 static bool g_avx2_saturated = false, g_fir_min = false;
 // OPUS_CHECK_ASM builds: the kernel's own self-check aborts (silk_assert -> abort()) after the AVX2 result has been written.
-// The wrappers below turn exactly that abort into "F22 class observed" when the AVX2 result holds a saturated sample (the
+// The wrappers below turn exactly that abort into "C15F2 class observed" when the AVX2 result holds a saturated sample (the
 // encoder then continues with the portable result) and let every other abort happen as usual.
 static bool g_in_avx2 = false, g_selfcheck_f22 = false;
 static jmp_buf g_avx2_jb;
@@ -172,7 +172,7 @@ int vp_case(Choice& c, Report& rep) {
     rep.labelf("cap:%d-encoded", cap);
     if (g_selfcheck_f22) {
       g_selfcheck_f22 = false;
-      if (!rep.exclude("F22")) return rep.fail("c15:checkasm-nsq-del-dec-avx2-saturated", "OPUS_CHECK_ASM self-check of silk_NSQ_del_dec_avx2 failed at cap %d; the AVX2 result holds a saturated sample (class of finding F22) [%s]", cap, cu::cfg_str(e).c_str());
+      if (!rep.exclude("C15F2")) return rep.fail("c15:checkasm-nsq-del-dec-avx2-saturated", "OPUS_CHECK_ASM self-check of silk_NSQ_del_dec_avx2 failed at cap %d; the AVX2 result holds a saturated sample (class of finding C15F2) [%s]", cap, cu::cfg_str(e).c_str());
       rep.label("checkasm:avx2-saturated-selfcheck-failure-excluded");
     }
   }
@@ -186,7 +186,7 @@ int vp_case(Choice& c, Report& rep) {
     for (int cap = 1; cap <= 4; cap++) {
       bool same = pk[cap][s].bytes == pk[0][s].bytes && pk[cap][s].range == pk[0][s].range;
 #ifdef FIXED_POINT
-      if (!same && sat_at[cap] && rep.exclude("F22")) { rep.label("fixed:avx2-saturated-nsq-packets-differ-excluded"); continue; }
+      if (!same && sat_at[cap] && rep.exclude("C15F2")) { rep.label("fixed:avx2-saturated-nsq-packets-differ-excluded"); continue; }
       if (!same) {
         size_t nd = 0, first = 0, last = 0, m = std::min(pk[cap][s].bytes.size(), pk[0][s].bytes.size());
         for (size_t i = 0; i < m; i++) if (pk[cap][s].bytes[i] != pk[0][s].bytes[i]) { if (!nd) first = i; last = i; nd++; }
@@ -263,7 +263,7 @@ int vp_case(Choice& c, Report& rep) {
   for (int cap = 1; cap <= 4; cap++) {
 #ifdef FIXED_POINT
     bool same = pcmi[cap].size() == pcmi[0].size() && (pcmi[0].empty() || !memcmp(pcmi[cap].data(), pcmi[0].data(), pcmi[0].size() * sizeof(opus_int16)));
-    if (!same && fir_at[cap] && rep.exclude("F21")) { rep.label("fixed:celt-fir-saturation-pcm-differs-excluded"); continue; }
+    if (!same && fir_at[cap] && rep.exclude("C15F1")) { rep.label("fixed:celt-fir-saturation-pcm-differs-excluded"); continue; }
     if (!same) {
       size_t i = 0; while (i + 1 < pcmi[0].size() && pcmi[cap][i] == pcmi[0][i]) i++;
       return rep.fail(fir_at[cap] ? "c15:fixed-pcm-differs-celt-fir-saturation" : any_lost ? "c15:fixed-pcm-differs-across-levels-with-loss" : "c15:fixed-pcm-differs-across-levels", "fixed-point build: decoded PCM at cap %d differs from cap 0 at sample %zu of %zu: %d vs %d (decoder %d Hz/%d ch) [%s]", cap, i, pcmi[0].size(), pcmi[cap][i], pcmi[0][i], decFs, decCh, cu::cfg_str(e).c_str());
